@@ -153,7 +153,7 @@ CLAIMED = {
         "Fraction group-by on the real code's outputs (exact on dyadic inputs, 1e-9 x total on general doubles).",
         "Trusted: Lean kernel + Mathlib Finset sums/Rat order; the aggregate model is one fact column at a time; NumPy "
         "bincount/nansum/boolean masks are modelled as list sums; IEEE-754 only through the exact stream.",
-        "Lean 4 proof (measure cubes = per-cell sums; mixed radix) + exact-stream correspondence of both cube types",
+        "Lean 4 proof (measure cubes = per-cell sums; mixed radix) + exact-stream correspondence of both cube types + strided coordinates regenerated from xcube._set_strides (translator) with a no-wrap theorem",
         "DESIGN.md §5 C03"),
     "C04": (
         "Lean 4 theorems: the missing-cell rule of the reference computation in terms of the rows of the cell (no valid "
